@@ -16,25 +16,33 @@ Clauses and how they are decided
                 are evaluated: sum R_k (RC-only ladders) and the in-window polarisation resistance
                 Re Z(f_min) - Re Z(f_max) of the harness model (all ladders; for RQ elements the heavy tails of the
                 true DRT put a few % of R_k outside ANY finite window, which is mathematics, not the library).
-    peaks       for every generating element a returned peak (get_peaks(0.0)) lies next to tau_k: RC elements within
-                max(PEAK_STEPS_RC grid steps, PEAK_DEC_RC decades); RQ elements (broad true distribution, which NNLS renders as a comb of spikes
-                whose tallest tooth need not be the central one) within PEAK_DEC_RQ decades AND the centre of mass of
-                gamma over ln(tau) within +-0.75 decade of tau_k within CENTROID_DEC decades of tau_k.
-                Additional small peaks elsewhere are accepted (the statement does not exclude ringing).
-    peaks are local maxima of the returned distribution (get_peaks() vs get_drt_data(), exact).
-                The nearest-peak part for RQ elements is decided when the lambda the result reports is
-                <= RQ_PEAK_LAMBDA_MAX (the range the fixed-lambda cells cover); an automatic lambda above that
-                smooths a low, broad RQ hump into its neighbour's flank (resolution of the method, observed with
-                lambda = 0.12) - there only the centre of mass decides and the case is counted as not decided.
+    peaks       for every generating element a returned peak (get_peaks(0.0)) lies next to tau_k:
+                RC elements within max(PEAK_STEPS_RC grid steps, PEAK_DEC_RC decades);
+                RQ elements (broad true distribution, which NNLS renders as a comb of spikes whose tallest tooth
+                need not be the central one): a peak within PEAK_DEC_RQ decades (half the minimum separation, i.e.
+                attributable to the element) AND the centre of mass of gamma over ln(tau) inside +-0.75 decade of
+                tau_k within CENTROID_DEC decades of tau_k.  The nearest-peak part for RQ elements is decided when
+                the lambda the result reports is <= RQ_PEAK_LAMBDA_MAX (the range the fixed-lambda cells cover); an
+                automatic lambda above that smooths a low, broad RQ hump into its neighbour's flank (resolution of
+                the method, observed with lambda = 0.12) - there only the centre of mass decides and the element is
+                counted as peak-not-decided.  RQ humps for which the EXACT distribution of the ladder has no local
+                maximum (low broad hump on the tail of a larger RQ neighbour; decided from the analytic formula with
+                the neighbours' tails amplified 1.5x) are tagged and only the centre of mass is decided; the same
+                tag is used for m(RQ)fit.  Additional small peaks elsewhere are accepted (ringing is not excluded
+                by the statement).  Every peak returned by get_peaks() must be a local maximum of get_drt_data().
     scaling     Z*a => gamma*a, tau unchanged; f*b => tau/b, gamma unchanged.  Every twin must satisfy the SAME
                 absolute clauses against the scaled ladder (area = a*R_pol, peaks at tau_k/b); the tau grids must
                 agree (rel SCALE_FIXED_REL).  Fixed lambda: in addition the whole gamma arrays are compared.
                 Automatic lambda: the search may legitimately branch differently on rounding (the L-curve search
                 does: lambda differs by orders of magnitude between twins), so the array difference and the lambda
                 ratio are only reported in worst_observed.
-  Loewner ('lm', RC-only ladders WITHOUT series resistance; model order automatic (matrix rank) and explicit):
+  Loewner ('lm', RC-only ladders WITHOUT series resistance, window <= LM_MAX_DECADES decades; model order automatic
+  (matrix rank) and explicit):
     every (tau_k, R_k) is among the returned (time_constants, gammas) within LM_REL; additional poles are accepted
-    only if they carry no weight (|gamma| <= LM_EXTRA_REL * max R_k; the rank estimate may exceed the true order).
+    only if they carry no weight (|gamma| <= LM_EXTRA_REL * max R_k; the rank estimate may exceed the true order);
+    a non-finite pole (tau = inf, gamma = -inf) has its own key C13/lm/<order>/nonfinite-pole.
+    "Exactly" is decided up to floating-point conditioning of the Loewner pencil: measured worst error 1e-12 at
+    4 decades, 1e-6 at 9, 7e-5 at 10, 2e-2 at 12 - hence the window bound in the generator.
     scaling as above on the matched poles.  Ladders WITH series resistance are run too, but only counted (the
     statement is silent about them).
   m(RQ)fit (synthetic `fit=` object, so no optimiser noise enters; a few real fits in addition):
@@ -129,6 +137,36 @@ def element_window_integral(R, tau0, n, W, t_lo, t_hi):
     return rq_window_integral(R, tau0, n, t_lo, t_hi)
 
 
+def rq_gamma(ltau, R, tau0, n):
+    """Analytic distribution of a parallel (RQ) over log10(tau) grid points (Boukamp 2015), harness implementation."""
+    a = (1.0 - n) * math.pi
+    x = (np.asarray(ltau, dtype=float) - math.log10(tau0)) * math.log(10.0)
+    return R / (2.0 * math.pi) * math.sin(a) / (np.cosh(n * x) - math.cos(a))
+
+
+def rq_resolved(els, amp=1.5, tol_dec=0.15):
+    """Per element: does the TRUE distribution of the ladder have a local maximum at tau_k at all?
+
+    A low, broad (RQ) hump next to a much larger (RQ) neighbour sits on that neighbour's tail without forming a local
+    maximum - then "has a peak at tau_k" is false for the exact distribution and nothing can be demanded of the library.
+    Decided robustly: the neighbours' tails are amplified by `amp` and a local maximum must remain within tol_dec
+    decades of tau_k.  RC elements (delta peaks) are always resolved."""
+    out = []
+    for k, (R, t0, n) in enumerate(els):
+        if n == 1.0:
+            out.append(True)
+            continue
+        l0 = math.log10(t0)
+        x = l0 + np.arange(-300, 301) * 0.002
+        y = rq_gamma(x, R, t0, n)
+        for j, (Rj, tj, nj) in enumerate(els):
+            if j != k and nj != 1.0:
+                y = y + amp * rq_gamma(x, Rj, tj, nj)
+        i = np.nonzero((y[1:-1] > y[:-2]) & (y[1:-1] >= y[2:]))[0] + 1
+        out.append(bool(len(i) and np.min(np.abs(x[i] - l0)) <= tol_dec))
+    return out
+
+
 def _selfcheck():
     f = np.array([1e3, 1.0, 1e-3])
     Z = ladder_Z(f, 1.0, [(2.0, 1.0 / (2 * np.pi), 1.0)])
@@ -143,6 +181,10 @@ def _selfcheck():
         assert abs(q - r) < 1e-9, (n, q, r)
         assert abs(rq_window_integral(3.0, 1.0, n, 1e-40, 1e40) - 3.0) < 1e-9
     assert abs(gauss_window_integral(2.0, 1.0, 0.15, 1e-9, 1e9) - 2.0) < 1e-12
+    lt = np.linspace(-12, 12, 48001)
+    assert abs(np.trapezoid(rq_gamma(lt, 3.0, 1.0, 0.8), lt * math.log(10.0)) - rq_window_integral(3.0, 1.0, 0.8, 1e-12, 1e12)) < 1e-6
+    assert rq_resolved([[1.0, 1e-3, 0.8], [2.0, 1.0, 1.0], [1.0, 1e2, 0.9]]) == [True, True, True]
+    assert rq_resolved([[27.77, 0.0018264, 0.7241], [3.1533, 0.075015, 0.70905], [13.705, 40.489, 0.91327]]) == [True, False, True]
 
 
 _selfcheck()
@@ -403,7 +445,8 @@ def _check_nnls_result(acc, cell, tag, rep, lad, f, r):
     if msg:
         acc.bad(vkey + "peak-not-a-maximum", msg, rep)
     matched = _nnls_matched(lad, tau, g, pt, pg)
-    for (R, t0, n), (d, tp, cen) in zip(lad["els"], matched):
+    resolved = rq_resolved(lad["els"])
+    for (R, t0, n), (d, tp, cen), res_k in zip(lad["els"], matched, resolved):
         if n == 1.0:
             acc.stat(cell + "/peak-checked[rc]")
             acc.obs(cell + "/peak_dev_steps[rc]" + sfx, d / step)
@@ -415,7 +458,10 @@ def _check_nnls_result(acc, cell, tag, rep, lad, f, r):
             acc.stat(cell + "/centroid-checked[rq]")
             acc.obs(cell + "/centroid_dev_decades[rq]" + sfx, cen)
             bad = not cen <= CENTROID_DEC
-            if lam <= RQ_PEAK_LAMBDA_MAX:
+            if not res_k:
+                acc.stat(cell + "/peak-not-decided[rq,no-maximum-in-true-drt]")
+                acc.obs(cell + "/peak_dev_decades[rq,no-maximum-in-true-drt,info]", d)
+            elif lam <= RQ_PEAK_LAMBDA_MAX:
                 acc.stat(cell + "/peak-checked[rq]")
                 acc.obs(cell + "/peak_dev_decades[rq]" + sfx, d)
                 bad = bad or not d <= PEAK_DEC_RQ
@@ -506,6 +552,12 @@ def _lm_match(els, tau, g):
     return out
 
 
+def _quiet_peaks(r):
+    with warnings.catch_warnings():
+        warnings.simplefilter("ignore")
+        return r.get_peaks(threshold=0.0)
+
+
 def run_lm(case, acc):
     lad = case["lad"]
     f = grid(lad)
@@ -531,11 +583,13 @@ def run_lm(case, acc):
             acc.evals += 1
             if which == "base":
                 acc.keys.append(_lad_key(cell, lad))
+            nonfinite = False
             if not np.all(np.isfinite(tau)) or not np.all(np.isfinite(g)):
                 # a returned distribution with an infinite time constant / infinite weight cannot sum to the resistance
                 acc.stat(cell + "/nonfinite-pole")
+                nonfinite = True
                 acc.bad(f"C13/{cell}/nonfinite-pole", f"{which} (a={fa!r}, b={fb!r}): {len(tau)} poles returned for {len(els)} elements, "
-                        f"time_constants*b={tau.tolist()} gammas/a={g.tolist()}", rep)
+                        f"time_constants*b={tau.tolist()} gammas/a={g.tolist()}; get_peaks() -> {[np.asarray(x).tolist() for x in _quiet_peaks(r)]}", rep)
                 fin = np.isfinite(tau) & np.isfinite(g)
                 tau, g = tau[fin], g[fin]
             if len(tau) < len(els) or np.any(tau <= 0):
@@ -559,10 +613,10 @@ def run_lm(case, acc):
             if oc == "explicit" and len(tau) != len(els):
                 acc.bad(f"C13/{cell}/recover", f"model_order={len(els)} returned {len(tau)} poles", rep)
             # public accessors agree with the attributes
-            if which == "base":
-                with warnings.catch_warnings():
-                    warnings.simplefilter("ignore")
-                    t_rc, g_rc, t_rl, g_rl = r.get_peaks(threshold=0.0)
+            if which == "base" and nonfinite:
+                base = (tau, g, m)  # get_peaks() is distorted by the non-finite pole (same mechanism, already reported)
+            elif which == "base":
+                t_rc, g_rc, t_rl, g_rl = _quiet_peaks(r)
                 acc.stat(cell + "/get_peaks-checked")
                 got = sorted((float(x), float(y)) for x, y in zip(t_rc, g_rc))
                 exp = sorted((float(tau[j]), float(g[j])) for j in used)
@@ -669,9 +723,13 @@ def run_mrq_one(lad, acc):
     if msg:
         acc.bad(f"C13/{cell}/peak-not-a-maximum", msg, rep)
     rstep = float(np.median(np.diff(np.log10(tau))))
-    for R, t0, n in els:
-        acc.stat(cell + "/peak-checked")
+    for (R, t0, n), res_k in zip(els, rq_resolved(els)):
         d = float(np.min(np.abs(np.log10(pt) - math.log10(t0)))) if len(pt) else float("inf")
+        if not res_k:
+            acc.stat(cell + "/peak-not-decided[rq,no-maximum-in-true-drt]")
+            acc.obs(cell + "/peak_dev_decades[rq,no-maximum-in-true-drt,info]", d)
+            continue
+        acc.stat(cell + "/peak-checked")
         acc.obs(cell + f"/peak_dev_steps[{kind(n)}]", d / rstep)
         acc.obs(cell + f"/peak_dev_decades[{kind(n)}]", d)
         # RC: Gaussian centred on tau_k -> the nearest grid point; RQ: symmetric hump on the sloping tails of its neighbours
